@@ -190,9 +190,11 @@ func ReadFile(r Reader, out interface{}, cb func(val unsafe.Pointer, rb *Resourc
 				return fmt.Errorf("failed to read item %d in file. %w", i, err)
 			}
 
+			verifPoint(vpReadFileBeforeCallback)
 			if err := cb(p, br.ExtractResourceBank()); err != nil {
 				return err
 			}
+			verifPoint(vpReadFileAfterCallback)
 		}
 
 		// Check the signature.
@@ -203,6 +205,7 @@ func ReadFile(r Reader, out interface{}, cb func(val unsafe.Pointer, rb *Resourc
 		if sig != fh.Sync {
 			return fmt.Errorf("sync block does not match. Have %X, want %X", sig, fh.Sync)
 		}
+		verifPoint(vpReadFileAfterBlock)
 	}
 }
 
